@@ -295,6 +295,8 @@ def run(ctx):
         % len(cases)
     )
     res = ctx.run_cases(case_profiles, list(_chunks(cases, 64)), sub="profiles", chunksize=1)
+    from vf import callerenv
+    callerenv.run(ctx, case_profiles, [cases[k::97][:48] for k in (0, 1)])
     ctx.run_cases(case_functions, [{"functions": "psi,phi"}], sub="stability-functions", serial=True)
     ctx.run_cases(case_call_forms, form_cases(), sub="the same request in other call forms")
     ctx.cov["lattice_points_physically_consistent"] = len(cases)
